@@ -2,6 +2,7 @@ import Proofs.Effects
 import Proofs.Objs
 import BycycleModel.EffectPrograms
 import Proofs.ObjMachine
+import Proofs.GroupMachine
 import Proofs.EffectsTranslated
 import BycycleModel.ObjTrace
 /-!
@@ -109,7 +110,39 @@ theorem C14_table_kept {S T : Type} (A : Api S T) (o : Obj S T) (op : Op S T)
     (h : match op with | .edit .. => True | .rebind .. => True | .editbk .. => True | .attr .. => True | _ => False) :
     (step A o op).1.df = o.df ∧ (step A o op).1.sig = o.sig := table_kept A o op h
 
+/-! ## `BycycleGroup` as a state machine (BycycleModel/GroupMachine.lean) -/
+open Obj in
+/-- INVARIANT: after any history of group fits (that succeed), group edge recomputations and per-model threshold rebindings on a freshly
+constructed group, `models[i]` holds exactly `df_features[i]` and `sigs[i]`, position by position (`Good` = lists aligned and mirror at
+every position). The edge recomputation keeps it even when one model raises half-way through the loop (`edges_good`). -/
+theorem C14_group_mirror {S T : Type} (A : Api S T) (gcf : Settings → List S → Except Err (List T)) (st : Settings) (ops : List (GOp S T))
+    (hr : regular A gcf (freshGroup st) ops) : Good (grun A gcf (freshGroup st) ops) :=
+  mirror_invariant A gcf (freshGroup st) ops (fresh_good st) hr
+
+open Obj in
+/-- refitting ONE model directly (`bg[i].fit(x)`) is the only operation that can break the mirror, and only at its own position. -/
+theorem C14_group_model_refit {S T : Type} (A : Api S T) (gcf : Settings → List S → Except Err (List T)) (g : GObj S T) (i : Nat) (x : S)
+    (h : Good g) : aligned (gstep A gcf g (.modelFit i x)).1 ∧ ∀ j, j ≠ i → mirrorAt (gstep A gcf g (.modelFit i x)).1 j :=
+  modelFit_others A gcf g i x h
+
+open Obj in
+/-- every model of a group fit carries the group's settings, and in the group's edge recomputation every model is recomputed with ITS
+OWN settings (the table at position i is the model's own `recompute_edges` step). -/
+theorem C14_group_settings {S T : Type} (A : Api S T) (gcf : Settings → List S → Except Err (List T)) (g : GObj S T) (xs : List S)
+    (h : (gstep A gcf g (.fit xs)).2 = .done) (r : Option Rat) (ms : List (Obj S T)) (ds : List T) (hl : ms.length = ds.length)
+    (hdone : (edgesLoop A r ms ds).2.2 = true) :
+    (∀ m ∈ (gstep A gcf g (.fit xs)).1.models, m.st = g.st) ∧
+    (edgesLoop A r ms ds).1 = ms.map fun m => (step A m (.edges r)).1 :=
+  ⟨fit_models_settings A gcf g xs h, edges_uses_model_settings A r ms ds hl hdone⟩
+
 /-! non-vacuity -/
+open Obj in
+/-- a regular history exists and reaches a non-trivial state: a fit of three signals, a per-model rebinding, a group recomputation. -/
+example : regular (apiWith true) (gcfWith true) (freshGroup (construct (S := Nat) (T := Term) true true none (some [("min_n_cycles", 2)]) none true).st)
+      [.fit [0, 1, 2], .modelRebind 0 [("min_n_cycles", 1)], .edges none] ∧
+    (grun (apiWith true) (gcfWith true) (freshGroup (construct (S := Nat) (T := Term) true true none (some [("min_n_cycles", 2)]) none true).st)
+      [.fit [0, 1, 2], .modelRebind 0 [("min_n_cycles", 1)], .edges none]).models.length = 3 := by
+  refine ⟨⟨by decide +kernel, trivial, trivial, trivial⟩, by decide +kernel⟩
 open Obj in
 /-- a concrete history on the symbolic instance: fit, edit, failed fit, edge recomputation. The table after the
 history is `rc (cf (settings at the first fit) 0) (lowered CURRENT thresholds)`. -/
